@@ -21,7 +21,7 @@ T1 = ("T1/T2 (mathematical facts, not proved here): for a valid polygon (holes i
 
 PLAN = {
     'C01': dict(
-        modules=['c14_measures', 'c15_orient', 'c16_isnull', 'c02_point', 'c13_bounds', 'c01_box', 'c01_lines', 'glue_rep', 'glue_polygon', 'glue_wrappers', 'glue_fixed'], level='other', stages=[RTC],
+        modules=['c14_measures', 'c15_orient', 'c16_isnull', 'c02_point', 'c13_bounds', 'c01_box', 'c01_lines', 'c01_polys', 'glue_rep', 'glue_polygon', 'glue_wrappers', 'glue_fixed'], level='other', stages=[RTC],
         trusted_base=COMMON_TRUST + [NUMPY_TRUST], assumptions=[MATH_ARITH, 'coordinates finite', T1, RTC_NOTE],
         explanation="proved: triangle_orientation, segments_intersect_1d, segments_intersect (under its call-site "
                     "precondition), point_intersects_polygon (= winding number), total_bounds_interleaved, "
@@ -108,7 +108,7 @@ PLAN = {
                     "contract (bounded)",
     ),
     'C14': dict(
-        modules=['c13_bounds', 'c14_measures', 'c15_orient', 'c16_isnull', 'c02_point', 'c01_box', 'c01_lines', 'glue_rep', 'glue_polygon', 'glue_wrappers'], level='other', stages=[RTC],
+        modules=['c13_bounds', 'c14_measures', 'c15_orient', 'c16_isnull', 'c02_point', 'c01_box', 'c01_lines', 'c01_polys', 'glue_rep', 'glue_polygon', 'glue_wrappers'], level='other', stages=[RTC],
         trusted_base=COMMON_TRUST,
         assumptions=[MATH_ARITH, "sqrt is an uninterpreted function: 'exact' means equal as real expressions; IEEE "
                      "rounding of the sums is not verified", "area contracts are for finite coordinates", RTC_NOTE],
@@ -126,14 +126,14 @@ PLAN = {
                     "unmodified); idempotence and the scalar view by the run-time checked contract (bounded)",
     ),
     'C16': dict(
-        modules=['c16_isnull', 'c13_bounds', 'c14_measures', 'c15_orient', 'c02_point', 'c01_box', 'c01_lines', 'glue_rep', 'glue_polygon', 'glue_wrappers', 'glue_take', 'glue_fixed'], level='other', stages=[RTC],
+        modules=['c16_isnull', 'c13_bounds', 'c14_measures', 'c15_orient', 'c02_point', 'c01_box', 'c01_lines', 'c01_polys', 'glue_rep', 'glue_polygon', 'glue_wrappers', 'glue_take', 'glue_fixed'], level='other', stages=[RTC],
         trusted_base=COMMON_TRUST, assumptions=[RTC_NOTE],
         explanation="_perform_extract_isnull_bytemap proved (bit (offset+i) of the validity bitmap, for every offset); "
                     "__getitem__/take/concat/copy/pickle and view-determinacy of every derived quantity by the run-time "
                     "checked contract over random derivation histories (bounded)",
     ),
     'C17': dict(
-        modules=['c13_bounds', 'c14_measures', 'c15_orient', 'c16_isnull', 'c02_point', 'c01_box', 'c01_lines', 'glue_rep', 'glue_polygon', 'glue_wrappers', 'glue_fixed'], level='other', stages=[RTC],
+        modules=['c13_bounds', 'c14_measures', 'c15_orient', 'c16_isnull', 'c02_point', 'c01_box', 'c01_lines', 'c01_polys', 'glue_rep', 'glue_polygon', 'glue_wrappers', 'glue_fixed'], level='other', stages=[RTC],
         trusted_base=COMMON_TRUST, assumptions=[MATH_ARITH, RTC_NOTE],
         explanation="inertness clauses that are inside proved contracts: an empty coordinate range gives a NaN bounds row and "
                     "contributes nothing to total bounds (C13 spec + lemmas), missing rows are skipped by the map kernels "
